@@ -65,7 +65,6 @@ class AFunc(AObj):
         self.__defaults__ = tuple(Sym('default', f'd{i}') for i in range(n_defaults)) or None
         self.__kwdefaults__ = {k: Sym('default', f'kd_{k}') for k in kwdefaults} or None
         self.__annotations__ = dict(annotations or {})
-        self.__wrapped__ = None
         self.__closure__ = None
         self.__globals__ = {}
 
@@ -145,6 +144,11 @@ class WrapperGenerator:
             if isinstance(f, ACode):
                 return f
             if isinstance(f, AFunc):
+                # get_func_codeobject[_or_none](func, is_unwrap=False): with is_unwrap the code object of the
+                # innermost wrapped callable is returned (functools.wraps chain), otherwise the callable's own
+                unwrap = k.get('is_unwrap', a[1] if len(a) > 1 and isinstance(a[1], bool) else False)
+                while unwrap is True and getattr(f, '__wrapped__', None) is not None:
+                    f = f.__wrapped__
                 return f.__code__
             return None
 
@@ -169,7 +173,7 @@ class WrapperGenerator:
         S.update({
             'beartype._util.func.utilfunccodeobj.get_func_codeobject': codeobj,
             'beartype._util.func.utilfunccodeobj.get_func_codeobject_or_none': codeobj,
-            'beartype._util.func.utilfuncwrap.unwrap_func_all_isomorphic': lambda e, a, k: arg(a, k, 0, 'func'),
+            'beartype._util.func.utilfunctest.is_func_codeobjable': lambda e, a, k: isinstance(arg(a, k, 0, 'func'), (AFunc, ACode)),
             'beartype._util.func.utilfunctest.is_func_boundmethod': lambda e, a, k: False,
             'beartype._util.hint.pep.proposal.pep749.pep649749annotate.get_hintable_pep649749_annotations':
                 lambda e, a, k: dict(arg(a, k, 0, 'hintable').__annotations__),
